@@ -17,6 +17,22 @@ Theorem C03_lowbits : forall t0 t0' ch, same_sw t0 t0' = true ->
 Proof. exact lowbits. Qed.
 Print Assumptions C03_lowbits.
 
+(* The reflective checker of the integer packings accepts the regenerated table, and what it
+   guarantees: for every integer struct-literal constructor, packing the value into Field.Integer
+   (an int64) and unpacking it in AddTo's arm gives the value back, for every value of the type. *)
+Theorem C03_roundtrip_ok : roundtrip_ok = true.
+Proof. exact roundtrip_ok_true. Qed.
+Print Assumptions C03_roundtrip_ok.
+Theorem C03_roundtrip_ok_sound : roundtrip_ok = true ->
+  forall c n ft ie m ue, In c (t_ctors T) ->
+    c_param c = TNum n -> c_body c = BLit ft KKey (Some ie) None None ->
+    assoc ft (t_arms T) = Some (ACall m (Some ue)) ->
+    forall stack z, in_num n z ->
+    exists iz, eval (env0 (VI z) stack) ie = Some (VI iz) /\ in_numb NInt64 iz = true /\
+               forall k s x, eval (fenv {| f_ty := 0; f_key := k; f_int := iz; f_str := s; f_ifc := x |} VNil) ue = Some (VI z).
+Proof. exact roundtrip_ok_sound. Qed.
+Print Assumptions C03_roundtrip_ok_sound.
+
 (* Every constructor of the generated table (exported or helper, scalar, pointer, slice, generic,
    zapfield), every key, every value of its parameter type -- every integer of each width, every
    float/complex bit pattern (NaN payloads, -0), every instant and location, nil/non-nil pointers,
